@@ -7,8 +7,10 @@
    walk that builds the analyze tree preserves the text - whatever group events are queued at
    whatever offsets, the leaves of the frames it leaves behind concatenate to the matched substring
    (so "the concatenation of all String leaves of a Match equals the matched substring" whenever the
-   events are balanced, i.e. whenever one frame is left). *)
-From RX Require Import Base.Prelude Model.Engine Model.Matcher Model.Api Proofs.AnalyzeFacts.
+   events are balanced, i.e. whenever one frame is left); and they are balanced, so the forest
+   process_matching_substring returns has leaves concatenating to the matched substring, whenever the
+   groups the matcher state records start and end inside the match (C03_match_leaves_partial). *)
+From RX Require Import Base.Prelude Model.Engine Model.Matcher Model.Api Proofs.AnalyzeFacts Proofs.AnalyzeTreeFacts.
 
 Theorem C03_get_paren_is_recorded_span_partial :
   forall input s g a b, Nat.ltb g (pcount (cs_ s)) = true ->
@@ -40,8 +42,16 @@ Theorem C03_leaves_concatenate_to_match_partial :
     walk current fuel 0 actions None [(O, [])] = Ok [(nr, es)] -> vtext (rev es) = current.
 Proof. exact walk_leaves. Qed.
 
+Theorem C03_match_leaves_partial :
+  forall current table s,
+    (forall i a0 si ei, 1 <= i -> get_pstart s 0 = Some a0 -> get_pstart s i = Some si -> get_pend s i = Some ei ->
+       si <= a0 + length current /\ ei <= a0 + length current) ->
+    forall v, process_matching_substring table s current = Ok v -> vtext v = current.
+Proof. exact pms_text. Qed.
+
 Print Assumptions C03_get_paren_is_recorded_span_partial.
 Print Assumptions C03_unset_group_contributes_nothing_partial.
 Print Assumptions C03_no_groups_one_leaf_partial.
 Print Assumptions C03_walk_preserves_text_partial.
 Print Assumptions C03_leaves_concatenate_to_match_partial.
+Print Assumptions C03_match_leaves_partial.
